@@ -1,2 +1,2 @@
-/* fid: assign-operator-unchecked (fixed 132893c); msg: assignment to pointer must be from pointer or null pointer constant */
+/* fid: assign-operator-unchecked (fixed 7e9d66c); msg: assignment to pointer must be from pointer or null pointer constant */
 int *p; int x; void f(void){ p = x; }
